@@ -1,7 +1,7 @@
 /-
   UVerifProofs.Lemmas.ConvPosIntWhole — `convert_i2p` for integer<ibits, bt, WholeNumber | NaturalNumber>:
-  the block-wise `operator<` of the unsigned number types on the two comparisons the adapter makes (`w < 0`, `1 < v`),
-  and the equality with the IntegerNumber conversion for values below 2^(ibits-1).
+  the block-wise `operator<` of the unsigned number types on the one comparison the adapter makes (`w < 0`: never true),
+  and the closed form of the conversion: the triple of the plain binary value.
 -/
 import UVerifProofs.Lemmas.ConvPosIntI2P
 open UVerif UVerif.Limbs UVerif.Posit
@@ -15,12 +15,6 @@ theorem ofNat_zero (w : Nat) : ∀ k, ofNat w k 0 = List.replicate k 0
     simp only [Nat.zero_mod, Nat.zero_div]
     rw [ofNat_zero w k]; rfl
 
-theorem ofNat_one {w : Nat} (hw : 0 < w) (k : Nat) : ofNat w (k + 1) 1 = 1 :: List.replicate k 0 := by
-  unfold ofNat
-  have h1 : 1 % 2 ^ w = 1 := Nat.mod_eq_of_lt (Nat.one_lt_two_pow (by omega))
-  have h2 : 1 / 2 ^ w = 0 := Nat.div_eq_of_lt (Nat.one_lt_two_pow (by omega))
-  rw [h1, h2, ofNat_zero]
-
 /-- nothing is below zero in the block-wise comparison -/
 theorem ltWholeRev_zero : ∀ (xs : List Nat) (m : Nat), ltWholeRev xs (List.replicate m 0) = false
   | [], _ => by unfold ltWholeRev; rfl
@@ -33,100 +27,6 @@ theorem ltWholeRev_zero : ∀ (xs : List Nat) (m : Nat), ltWholeRev xs (List.rep
     · simp [h, ih]
     · simp [h, ih]
 
-/-- `1 < v` in the block-wise comparison: some higher block is non-zero, or the lowest block exceeds 1 -/
-theorem ltWholeRev_one : ∀ (ys : List Nat) (y0 : Nat),
-    ltWholeRev (List.replicate ys.length 0 ++ [1]) (ys ++ [y0]) = (ys.any (· ≠ 0) || decide (1 < y0))
-  | [], y0 => by
-    simp only [List.length_nil, List.replicate_zero, List.nil_append, List.any_nil, Bool.false_or]
-    unfold ltWholeRev
-    by_cases h1 : 1 = y0
-    · subst h1; simp [ltWholeRev]
-    · by_cases h2 : 1 < y0
-      · simp [h1, h2]
-      · simp [h1, h2, ltWholeRev]
-  | y :: ys, y0 => by
-    simp only [List.length_cons, List.replicate_succ, List.cons_append, List.any_cons]
-    unfold ltWholeRev
-    have ih := ltWholeRev_one ys y0
-    by_cases h : y = 0
-    · subst h; simp [ih]
-    · have hp : 0 < y := Nat.pos_of_ne_zero h
-      have hne : (0 == y) = false := by simp; omega
-      simp [hne, hp, h]
-
-theorem toNat_gt_one_iff {w : Nat} (hw : 0 < w) : ∀ (b0 : Nat) (rest : List Nat), b0 < 2 ^ w →
-    (1 < toNat w (b0 :: rest) ↔ (rest.any (· ≠ 0) = true ∨ 1 < b0)) := by
-  intro b0 rest hb0
-  rw [toNat_cons]
-  have hpw : 2 ≤ 2 ^ w := by
-    have := Nat.pow_le_pow_right (show 0 < 2 by decide) (show 1 ≤ w by omega); simpa using this
-  constructor
-  · intro h
-    by_cases hr : toNat w rest = 0
-    · right; rw [hr] at h; omega
-    · left
-      by_contra hc
-      apply hr
-      have hall : ∀ x ∈ rest, x = 0 := by
-        intro x hx
-        by_contra hx0
-        exact hc (List.any_eq_true.mpr ⟨x, hx, by simp [hx0]⟩)
-      clear hc hr h
-      induction rest with
-      | nil => rfl
-      | cons x xs ih =>
-        rw [toNat_cons, hall x (List.mem_cons_self ..), ih (fun y hy => hall y (List.mem_cons_of_mem _ hy))]
-        simp
-  · rintro (h | h)
-    · obtain ⟨x, hx, hx0⟩ := List.any_eq_true.mp h
-      have hx0' : x ≠ 0 := by simpa using hx0
-      have : 0 < toNat w rest := by
-        clear h hb0
-        induction rest with
-        | nil => cases hx
-        | cons y ys ih =>
-          rw [toNat_cons]
-          rcases List.mem_cons.mp hx with rfl | hm
-          · omega
-          · have := ih hm
-            have hp := Nat.two_pow_pos w
-            have : 0 < 2 ^ w * toNat w ys := Nat.mul_pos hp this
-            omega
-      have : 2 ^ w * 1 ≤ 2 ^ w * toNat w rest := Nat.mul_le_mul_left _ this
-      omega
-    · omega
-
-
-/-- `integer(1) < v` for the unsigned number types is `1 < v` -/
-theorem ltWhole_one_spec {w n : Nat} (hw : 0 < w) (hn : 0 < n) {v : List Nat} (hv : Canon w n v) :
-    ltWhole (Integer.convertSigned w n 1) v = decide (1 < toNat w v) := by
-  obtain ⟨k', hk⟩ : ∃ k', nrBlocks w n = k' + 1 := ⟨nrBlocks w n - 1, by have := nrBlocks_pos w n; omega⟩
-  have hone : Integer.convertSigned w n 1 = 1 :: List.replicate k' 0 := by
-    unfold Integer.convertSigned
-    rw [Integer.ofSigned_one hn, hk, ofNat_one hw]
-  have hlen := hv.1
-  rw [hk] at hlen
-  match v, hlen, hv with
-  | b0 :: rest, hlen, hv =>
-    have hrl : rest.length = k' := by simpa using hlen
-    unfold ltWhole
-    rw [hone, List.reverse_cons, List.reverse_replicate, List.reverse_cons]
-    have := ltWholeRev_one rest.reverse b0
-    rw [List.length_reverse, hrl] at this
-    rw [this, List.any_reverse]
-    have hb0 : b0 < 2 ^ w := hv.2.1 b0 (List.mem_cons_self ..)
-    have hiff := toNat_gt_one_iff hw b0 rest hb0
-    by_cases h : 1 < toNat w (b0 :: rest)
-    · rw [decide_eq_true h]
-      rcases hiff.mp h with h1 | h1
-      · rw [h1, Bool.true_or]
-      · rw [decide_eq_true h1, Bool.or_true]
-    · rw [decide_eq_false h]
-      have h1 : ¬ (rest.any (· ≠ 0) = true) := fun hc => h (hiff.mpr (Or.inl hc))
-      have h2 : ¬ 1 < b0 := fun hc => h (hiff.mpr (Or.inr hc))
-      simp only [Bool.not_eq_true] at h1
-      rw [h1, decide_eq_false h2]; rfl
-
 /-- `w < 0` is false for the unsigned number types -/
 theorem ltWhole_zero_spec {w n : Nat} (a : List Nat) : ltWhole a (Integer.convertSigned w n 0) = false := by
   unfold ltWhole Integer.convertSigned
@@ -134,52 +34,24 @@ theorem ltWhole_zero_spec {w n : Nat} (a : List Nat) : ltWhole a (Integer.conver
   rw [this, ofNat_zero, List.reverse_replicate]
   exact ltWholeRev_zero _ _
 
-/-- on values below 2^(n-1) the unsigned scale loop is the signed one -/
-theorem scaleLoopWhole_eq {w N : Nat} (hw : 0 < w) (hN : 0 < N) (h64 : w ≠ 64 ∨ nrBlocks w (N + 1) = 1) :
-    ∀ (f : Nat) (v : List Nat), Canon w (N + 1) v → toNat w v < 2 ^ N →
-      scaleLoopWhole w (N + 1) f v = scaleLoop w (N + 1) f v := by
-  intro f
-  induction f with
-  | zero => intro v _ _; rfl
-  | succ f ih =>
-    intro v hv hlt
-    obtain ⟨h1, h1v⟩ := toNat_one (w := w) (N := N) hw
-    unfold scaleLoopWhole scaleLoop
-    rw [ltWhole_one_spec hw (by omega) hv, Integer.lt_spec hw (by omega) h64 h1 hv, h1v]
-    have e1 : toSigned (N + 1) 1 = 1 := by
-      rw [Integer.toSigned_small (by omega) (by simpa using Nat.one_lt_two_pow (by omega : N ≠ 0))]; rfl
-    have eV : toSigned (N + 1) (toNat w v) = ((toNat w v : Nat) : Int) :=
-      Integer.toSigned_small (by omega) (by simpa using hlt)
-    rw [e1, eV]
-    have hd : decide ((1 : Int) < ((toNat w v : Nat) : Int)) = decide (1 < toNat w v) := by
-      by_cases h : 1 < toNat w v
-      · rw [decide_eq_true h, decide_eq_true (by omega)]
-      · rw [decide_eq_false h, decide_eq_false (by omega)]
-    rw [hd]
-    obtain ⟨hc, hsv⟩ := Integer.shr_one_small hw hN hv hlt
-    rw [ih _ hc (by rw [hsv]; omega)]
-
-/-- **unsigned number types below the top bit behave like IntegerNumber**: for a value < 2^(ibits-1) the conversion of
-    integer<ibits, bt, WholeNumber|NaturalNumber> is the conversion of the same pattern as an IntegerNumber -/
-theorem i2pWhole_eq_i2p {w ibits n es : Nat} (hw : 0 < w) (hib : 2 ≤ ibits) (h64 : w ≠ 64 ∨ nrBlocks w ibits = 1)
-    {a : List Nat} (ha : Canon w ibits a) (hlt : toNat w a < 2 ^ (ibits - 1)) :
-    i2pWhole w ibits n es a = i2p w ibits n es a := by
-  obtain ⟨N, rfl⟩ : ∃ N, ibits = N + 1 := ⟨ibits - 1, by omega⟩
-  simp only [Nat.add_sub_cancel] at hlt
-  have hsign : Integer.sign w (N + 1) a = false := by
-    rw [Integer.sign_canon hw (by omega) ha]
-    simp only [Nat.add_sub_cancel]
-    exact decide_eq_false (by omega)
-  have hneg : Integer.isneg w (N + 1) a = false := by
-    rw [Integer.isneg_spec hw (by omega) h64 ha, Integer.toSigned_small (by omega) (by simpa using hlt)]
-    exact decide_eq_false (by omega)
-  have hsc : intScaleWhole w (N + 1) a = intScale w (N + 1) a := by
-    unfold intScaleWhole intScale
-    rw [hsign]
-    simp only [Bool.false_eq_true, if_false]
-    exact scaleLoopWhole_eq hw (by omega) h64 _ a ha hlt
-  unfold i2pWhole i2p
-  simp only
-  rw [hsc, ltWhole_zero_spec, hneg]
+/-- **the unsigned number types in closed form**: the conversion of integer<ibits, bt, WholeNumber|NaturalNumber> is the
+    conversion of the triple of its plain binary value — for every limb width (no limb arithmetic is reached: `w < 0` is a
+    block scan, no two's complement is taken) and every value, the top bit included -/
+theorem i2pWhole_eq {w ibits n es : Nat} (hw : 0 < w) (hib : 0 < ibits) {a : List Nat} (ha : Canon w ibits a)
+    (hx : toNat w a ≠ 0) :
+    i2pWhole w ibits n es a = .enc (Posit.convert n es (i2pVal n ((toNat w a : Nat) : Int))) := by
+  unfold i2pWhole i2pCore
+  simp only [ltWhole_zero_spec, Bool.false_eq_true, if_false]
+  rw [Integer.msbPos_eq hx]
+  obtain ⟨hz, hzv⟩ := Integer.convertSigned_zero (w := w) hw hib
+  have hzero : Integer.eq a (Integer.convertSigned w ibits 0) = false := by
+    rw [Integer.eq_spec ha hz, hzv]
+    apply decide_eq_false
+    rw [Integer.toSigned_inj ha.2.2 (Nat.two_pow_pos _)]; exact hx
+  rw [hzero]
+  unfold i2pVal
+  have h1 : decide ((((toNat w a : Nat) : Int)) < 0) = false := decide_eq_false (by omega)
+  have h2 : decide ((((toNat w a : Nat) : Int)) = 0) = false := decide_eq_false (by omega)
+  simp only [Int.natAbs_natCast, Int.toNat_natCast, h1, h2]
 
 end UVerif.ConvPosInt
